@@ -459,6 +459,110 @@ func c38RunHistory(t *testing.T, rep *vfReport, r *vfRng, nOps, maxNodes int, sc
 	return h.ops, h.impl, true
 }
 
+// c38ConcurrentWaiters: two linearizable reads wait on the SAME index with different
+// timeouts while a slow write is being applied. The impatient one (300 ms) gives up; the
+// patient one (30 s) must still complete as soon as the FSM has applied the write — a waiter
+// that goes away must not take another caller's subscription with it (subscriptions of
+// rsync.ReadyTarget are per caller). The property's quantifier is about sequential
+// histories; this adds the one concurrent schedule in which waiters interact.
+func c38ConcurrentWaiters(t *testing.T, rep *vfReport) {
+	c := clu8NewCluster(t)
+	defer c.Close()
+	n0, err := c.NewNode()
+	if err != nil {
+		t.Fatalf("C38 harness: %v", err)
+	}
+	if err := c.Bootstrap(n0); err != nil {
+		t.Fatalf("C38 harness: %v", err)
+	}
+	s := n0.S
+	if err := clu8Exec(s, "CREATE TABLE c38s (x INTEGER)"); err != nil {
+		t.Fatalf("C38 harness: %v", err)
+	}
+	// the first linearizable read of the term is upgraded to a strong read
+	for i := 0; i < 2; i++ {
+		if _, _, err := clu8Query(s, "SELECT COUNT(*) FROM c38s", proto.ConsistencyLevel_LINEARIZABLE, 10*time.Second); err != nil {
+			rep.Note("concurrent waiters: warm-up read failed: %v", err)
+			return
+		}
+	}
+	size := 4000000
+	for attempt := 0; attempt < 4; attempt++ {
+		slow := fmt.Sprintf("INSERT INTO c38s(x) SELECT count(*) FROM (WITH RECURSIVE c(x) AS (SELECT 1 UNION ALL SELECT x+1 FROM c WHERE x < %d) SELECT x FROM c)", size)
+		wdone := make(chan error, 1)
+		go func() { wdone <- clu8Exec(s, slow) }()
+		// wait until the write is committed but still being applied
+		inflight := false
+		deadline := time.Now().Add(20 * time.Second)
+		for time.Now().Before(deadline) {
+			if s.raft.CommitIndex() > s.fsmIdx.Load() {
+				inflight = true
+				break
+			}
+			select {
+			case err := <-wdone:
+				wdone <- err
+				deadline = time.Now()
+			default:
+				time.Sleep(time.Millisecond)
+			}
+		}
+		type res struct {
+			who string
+			err error
+			el  time.Duration
+		}
+		ch := make(chan res, 2)
+		read := func(who string, to time.Duration) {
+			t0 := time.Now()
+			_, _, err := clu8Query(s, "SELECT COUNT(*) FROM c38s", proto.ConsistencyLevel_LINEARIZABLE, to)
+			ch <- res{who, err, time.Since(t0)}
+		}
+		if inflight {
+			go read("patient", 30*time.Second)
+			go read("impatient", 300*time.Millisecond)
+		}
+		werr := <-wdone
+		wEnd := time.Now()
+		if werr != nil {
+			rep.Note("concurrent waiters: slow write failed: %v", werr)
+			return
+		}
+		if !inflight {
+			size *= 2
+			continue
+		}
+		var patient, impatient res
+		for i := 0; i < 2; i++ {
+			r := <-ch
+			if r.who == "patient" {
+				patient = r
+			} else {
+				impatient = r
+			}
+		}
+		imp := "ok"
+		if impatient.err != nil {
+			imp = "gave-up"
+		}
+		rep.Count("concurrent-waiters:impatient-" + imp)
+		rep.Case(fmt.Sprintf("concurrent-waiters|impatient=%s|size=%d", imp, size), imp == "gave-up")
+		rep.Sample(map[string]interface{}{"scenario": "concurrent-waiters", "slow_write_rows": size, "impatient_reader": fmt.Sprintf("%v after %s", impatient.err, impatient.el.Round(time.Millisecond)),
+			"patient_reader": fmt.Sprintf("%v after %s", patient.err, patient.el.Round(time.Millisecond)), "patient_done_after_write_end": time.Since(wEnd).Round(time.Millisecond).String()})
+		if patient.err != nil {
+			rep.Fail("concurrent-linread-starved-by-other-waiters-timeout",
+				fmt.Sprintf("a slow write (index = commit index) was being applied; reader A (timeout 300 ms) and reader B (timeout 30 s) both waited for it; A gave up (%v), the write finished, and B — on a healthy leader, its index applied — still failed after %s: %v",
+					impatient.err, patient.el.Round(time.Millisecond), patient.err),
+				map[string]interface{}{"schedule": []string{"strong read", "slow write starts (committed, FSM busy)", "linearizable read B, timeout 30s", "linearizable read A, timeout 300ms", "A times out", "write applied", "B ?"}})
+		}
+		if imp == "gave-up" {
+			return
+		}
+		size *= 2 // the write was too quick for the impatient reader to give up: make it slower
+	}
+	rep.Note("concurrent waiters: could not get a write slow enough for the impatient reader to time out")
+}
+
 func TestVerifC38(t *testing.T) {
 	rep := vfNewReport("C38", "live 1-3 node clusters; generated histories of write/strong read/no-op command/barrier/snapshot/join voter/join non-voter/re-join/remove/stepdown, a linearizable read (timeout 5 s) on the leader after every operation with no intervening write; a case is non-trivial when the latest committed log entry at the time of the read is not a command entry; distinct by (log types, preceding op, commit index, FSM index)")
 	defer rep.Write()
@@ -498,6 +602,9 @@ func TestVerifC38(t *testing.T) {
 		t0 := time.Now()
 		guarded(nOps, nil)
 		t.Logf("C38 history %d/%d done in %s", i+1, hists, time.Since(t0).Round(time.Second))
+	}
+	if fin, dump := clu8Guard(10*time.Minute, func() { c38ConcurrentWaiters(t, rep) }); !fin {
+		rep.Note("C38: concurrent-waiters scenario abandoned; goroutines: %s", dump)
 	}
 	rep.CountN("histories-completed", completed)
 	if completed == 0 {
